@@ -16,6 +16,8 @@ def run(task):
     if not desc: return None
     fr=verify_function(repo,ct,REG,con,mutate=lambda i:m)
     if fr.unsupported: return (q,k,desc,'UNSUPPORTED',fr.unsupported[:80])
+    from pyvc import solve
+    solve.SHORT_BUDGET=True
     for ob in fr.obligations:
         v=discharge(ob, (fr.ex.base+fr.ex.extra_axioms), use_cvc5=False)
         if v.status not in ('PROVED','COVERED'):
